@@ -1,17 +1,340 @@
 package main
 
 import (
+	"encoding/json"
+	"flag"
 	"fmt"
-	"golang.org/x/tools/go/packages"
-	"golang.org/x/tools/go/ssa"
-	"golang.org/x/tools/go/ssa/ssautil"
+	"os"
+	"path/filepath"
+	"sort"
+	"strconv"
+	"strings"
+	"time"
 )
 
+type Target struct {
+	Pkg  string   `json:"pkg"`
+	Func string   `json:"func"`
+	Tags []string `json:"tags,omitempty"` // report only obligations carrying one of these tags (default: all)
+}
+
+type PropConfig struct {
+	ID        string   `json:"id"`
+	Packages  []string `json:"packages"`
+	Targets   []Target `json:"targets"`
+	Lemmas    []string `json:"lemmas"`
+	NotDecided []string `json:"not_decided"`
+	Extra     []string `json:"extra_assumptions"`
+}
+
+type KnownFinding struct {
+	Property   string `json:"property"`
+	Obligation string `json:"obligation"`
+	What       string `json:"what"`
+}
+
+type KnownFile struct {
+	Findings []KnownFinding `json:"findings"`
+	Fixed    []string       `json:"fixed"`
+}
+
 func main() {
-	cfg := &packages.Config{Mode: packages.LoadAllSyntax, Dir: "/repo", BuildFlags: []string{"-tags=verif"}}
-	pkgs, err := packages.Load(cfg, "./net/packet")
-	if err != nil { panic(err) }
-	prog, spkgs := ssautil.AllPackages(pkgs, ssa.InstantiateGenerics)
-	prog.Build()
-	fmt.Println(len(spkgs))
+	if len(os.Args) < 2 {
+		fmt.Fprintln(os.Stderr, "usage: govc check|dump ...")
+		os.Exit(2)
+	}
+	switch os.Args[1] {
+	case "check":
+		os.Exit(cmdCheck(os.Args[2:]))
+	default:
+		fmt.Fprintln(os.Stderr, "unknown command")
+		os.Exit(2)
+	}
+}
+
+func cmdCheck(args []string) int {
+	fs := flag.NewFlagSet("check", flag.ExitOnError)
+	prop := fs.String("prop", "", "property id")
+	tier := fs.String("tier", "quick", "quick|thorough")
+	repo := fs.String("repo", "/repo", "repository root")
+	verif := fs.String("verif", "/verif", "verification root")
+	only := fs.String("only", "", "only functions whose key contains this")
+	keep := fs.Bool("keep", false, "keep the scratch directory")
+	dump := fs.Bool("dump", false, "print every obligation")
+	noEvidence := fs.Bool("no-evidence", false, "do not write the evidence file")
+	fs.Parse(args)
+	if t := os.Getenv("VERIF_TIER"); t == "quick" || t == "thorough" {
+		*tier = t
+	}
+	seed := 0
+	if s := os.Getenv("VERIF_SEED"); s != "" {
+		if v, err := strconv.Atoi(s); err == nil {
+			seed = v
+		}
+	}
+	start := time.Now()
+	var cfg PropConfig
+	data, err := os.ReadFile(filepath.Join(*verif, "properties", *prop+".json"))
+	if err != nil {
+		fmt.Fprintln(os.Stderr, "govc:", err)
+		return 2
+	}
+	if err := json.Unmarshal(data, &cfg); err != nil {
+		fmt.Fprintln(os.Stderr, "govc: bad property config:", err)
+		return 2
+	}
+	eng, err := loadEngine(*repo, cfg.Packages, filepath.Join(*verif, "contracts", "spec"))
+	if err != nil {
+		fmt.Fprintln(os.Stderr, "govc:", err)
+		return 2
+	}
+	loadS := time.Since(start).Seconds()
+
+	scratch, _ := os.MkdirTemp("/var/tmp", "govc-")
+	if !*keep {
+		defer os.RemoveAll(scratch)
+	} else {
+		fmt.Println("scratch:", scratch)
+	}
+
+	var obls []*Obligation
+	var vcs []*VC
+	var funcs []string
+	var genErrs []string
+	for _, t := range cfg.Targets {
+		if *only != "" && !strings.Contains(t.Func, *only) {
+			continue
+		}
+		pkg := modulePath
+		if t.Pkg != "" {
+			pkg += "/" + t.Pkg
+		}
+		fc := eng.contracts.Funcs[pkg+"::"+t.Func]
+		if fc == nil {
+			genErrs = append(genErrs, fmt.Sprintf("CONTRACT-STALE: no contract for %s::%s", pkg, t.Func))
+			continue
+		}
+		fns := eng.findFuncs(pkg, t.Func)
+		if len(fns) == 0 {
+			genErrs = append(genErrs, fmt.Sprintf("CONTRACT-STALE: contract names %s::%s but no such function exists", pkg, t.Func))
+			continue
+		}
+		for _, fn := range fns {
+			fvcs, err := eng.verifyFunc(fn, fc)
+			if err != nil {
+				genErrs = append(genErrs, err.Error())
+				continue
+			}
+			funcs = append(funcs, fn.String())
+			var tagset map[string]bool
+			if len(t.Tags) > 0 {
+				tagset = map[string]bool{}
+				for _, tg := range t.Tags {
+					tagset[tg] = true
+				}
+			}
+			for _, vc := range fvcs {
+				vcs = append(vcs, vc)
+				for _, o := range vc.obls {
+					if tagset != nil && !o.Cover {
+						hit := false
+						for _, tg := range o.Tags {
+							if tagset[tg] {
+								hit = true
+							}
+						}
+						if !hit {
+							continue
+						}
+					}
+					obls = append(obls, o)
+				}
+			}
+		}
+	}
+	for _, ln := range cfg.Lemmas {
+		if *only != "" && !strings.Contains(ln, *only) {
+			continue
+		}
+		found := false
+		for _, lm := range eng.contracts.Lemmas {
+			if lm.Name == ln {
+				found = true
+				vc, err := eng.verifyLemma(lm)
+				if err != nil {
+					genErrs = append(genErrs, err.Error())
+					continue
+				}
+				vcs = append(vcs, vc)
+				obls = append(obls, vc.obls...)
+			}
+		}
+		if !found {
+			genErrs = append(genErrs, "CONTRACT-STALE: no lemma named "+ln)
+		}
+	}
+	if len(genErrs) > 0 {
+		for _, e := range genErrs {
+			fmt.Println("ERROR:", e)
+		}
+		fmt.Printf("govc: %s: verification conditions could not be generated (this is a contract/engine problem, not a property verdict)\n", cfg.ID)
+		return 2
+	}
+	genS := time.Since(start).Seconds() - loadS
+
+	d := &Discharger{dir: scratch, timeoutS: 20, seed: seed, par: 6}
+	if *tier == "thorough" {
+		d.timeoutS = 120
+	}
+	solveStart := time.Now()
+	d.run(obls)
+	solveS := time.Since(solveStart).Seconds()
+
+	return report(eng, &cfg, *tier, seed, *verif, *repo, funcs, vcs, obls, *dump, *noEvidence, loadS, genS, solveS, time.Since(start).Seconds())
+}
+
+func report(eng *Engine, cfg *PropConfig, tier string, seed int, verif, repo string, funcs []string, vcs []*VC, obls []*Obligation,
+	dump, noEvidence bool, loadS, genS, solveS, wallS float64) int {
+	var known KnownFile
+	if data, err := os.ReadFile(filepath.Join(verif, "known_findings.json")); err == nil {
+		json.Unmarshal(data, &known)
+	}
+	isKnown := func(o *Obligation) *KnownFinding {
+		for i := range known.Findings {
+			k := &known.Findings[i]
+			if k.Property == cfg.ID && k.Obligation == o.Name {
+				return k
+			}
+		}
+		return nil
+	}
+	nObl, nDis, nCover, nCoverOK, nBounded := 0, 0, 0, 0, 0
+	var solverMs int64
+	bySolver := map[string]int{}
+	var failed []*Obligation
+	var perObl []map[string]interface{}
+	for _, o := range obls {
+		solverMs += o.Ms
+		if o.Cover {
+			nCover++
+			if o.Status == "cover-ok" || o.Status == "cover-unknown" {
+				nCoverOK++
+			} else {
+				failed = append(failed, o)
+			}
+		} else {
+			nObl++
+			if o.Bounded {
+				nBounded++
+			}
+			if o.Status == "discharged" {
+				nDis++
+				bySolver[o.Solver]++
+			} else {
+				failed = append(failed, o)
+			}
+		}
+		if dump || (o.Status != "discharged" && o.Status != "cover-ok") {
+			fmt.Printf("  %-13s %-8s %6dms  %s\n", o.Status, o.Solver, o.Ms, o.Name)
+		}
+		perObl = append(perObl, map[string]interface{}{"name": o.Name, "result": o.Status, "solver": o.Solver, "ms": o.Ms, "tags": o.Tags, "bounded": o.Bounded})
+	}
+	exit := 0
+	replayDir := filepath.Join(verif, "out", "replay", cfg.ID)
+	os.MkdirAll(replayDir, 0o755)
+	old, _ := filepath.Glob(filepath.Join(replayDir, "*.json"))
+	for _, f := range old {
+		os.Remove(f)
+	}
+	var knownHit []string
+	violations := 0
+	for i, o := range failed {
+		if k := isKnown(o); k != nil {
+			fmt.Printf("KNOWN-FINDING: property=%s %s: %s\n", cfg.ID, o.Name, k.What)
+			knownHit = append(knownHit, o.Name)
+			continue
+		}
+		violations++
+		exit = 1
+		path := filepath.Join(replayDir, fmt.Sprintf("%03d_%s.json", i, sanitize(o.Name)))
+		confirmed := writeReplay(eng, repo, path, cfg.ID, o)
+		suffix := ""
+		if !confirmed {
+			suffix = " no-failing-input-found"
+		}
+		fmt.Printf("FAILED %s [%s] %s\n", o.Name, o.Status, o.Note)
+		fmt.Printf("VIOLATION property=%s replay=%s%s\n", cfg.ID, path, suffix)
+	}
+	if nObl == 0 {
+		fmt.Printf("govc: %s: zero obligations generated — vacuous check\n", cfg.ID)
+		exit = 2
+	}
+	assumptions := map[string]bool{}
+	for _, vc := range vcs {
+		for a := range vc.Assumed {
+			assumptions[a] = true
+		}
+	}
+	for _, s := range eng.contracts.Scan {
+		assumptions["contract file mentions assume/trusted: "+s] = true
+	}
+	for _, x := range cfg.Extra {
+		assumptions[x] = true
+	}
+	for _, nd := range cfg.NotDecided {
+		assumptions["NOT DECIDED by this check: "+nd] = true
+	}
+	var alist []string
+	for a := range assumptions {
+		alist = append(alist, a)
+	}
+	sort.Strings(alist)
+	fmt.Printf("govc %s tier=%s: %d functions under contract, %d obligations, %d discharged (%v), %d covers (%d ok), bounded=%d, load %.1fs gen %.1fs solve %.1fs (solver cpu %.1fs), wall %.1fs\n",
+		cfg.ID, tier, len(funcs), nObl, nDis, bySolver, nCover, nCoverOK, nBounded, loadS, genS, solveS, float64(solverMs)/1000, wallS)
+	if !noEvidence {
+		var samples []interface{}
+		for i, o := range obls {
+			if i%((len(obls)/4)+1) == 0 && !o.Cover {
+				samples = append(samples, map[string]interface{}{"name": o.Name, "note": o.Note, "goal_smt": truncate(o.Goal, 600), "result": o.Status, "solver": o.Solver})
+			}
+		}
+		ev := map[string]interface{}{
+			"property_id": cfg.ID,
+			"tier":        tier,
+			"seed":        seed,
+			"level":       "proof",
+			"coverage": map[string]interface{}{
+				"obligations":              nObl,
+				"discharged":               nDis,
+				"checker_cmd":              fmt.Sprintf("/verif/bin/govc check -prop %s -tier %s  (VC generation over go/ssa of %s; portfolio z3-new 5.1.0 / z3 4.8.12 / cvc5 1.0.3)", cfg.ID, tier, repo),
+				"trusted_base":             []string{"go/parser, go/types, go/ssa (x/tools v0.29.0)", "govc translation of SSA to SMT-LIB (/verif/engine)", "z3 4.8.12, z3 5.1.0, cvc5 1.0.3 (unsat answers believed)", "assumed library contracts listed under assumptions"},
+				"functions_under_contract": funcs,
+				"discharged_by_solver":     bySolver,
+				"covers":                   nCover,
+				"covers_ok":                nCoverOK,
+				"bounded_obligations":      nBounded,
+				"solver_time_s":            float64(solverMs) / 1000,
+				"load_s":                   loadS,
+				"vcgen_s":                  genS,
+				"samples":                  samples,
+				"per_obligation":           perObl,
+				"known_findings_hit":       knownHit,
+				"integer_semantics":        "all Go integers are bit-vectors of their declared width (machine arithmetic, nothing treated as mathematical)",
+			},
+			"assumptions": alist,
+			"wall_s":      wallS,
+			"violations":  violations,
+		}
+		os.MkdirAll(filepath.Join(verif, "evidence"), 0o755)
+		data, _ := json.MarshalIndent(ev, "", " ")
+		os.WriteFile(filepath.Join(verif, "evidence", cfg.ID+".json"), data, 0o644)
+	}
+	return exit
+}
+
+func truncate(s string, n int) string {
+	if len(s) > n {
+		return s[:n] + "…"
+	}
+	return s
 }
